@@ -257,7 +257,11 @@ func (o *OvsdbServer) Monitor(client *rpc2.Client, args []json.RawMessage, reply
 
 	tableUpdates := make(ovsdb.TableUpdates)
 	for t, request := range request {
-		if request != nil && request.Select != nil && !request.Select.Initial() {
+		if request == nil {
+			// a null request is a request with all the defaults
+			request = &ovsdb.MonitorRequest{}
+		}
+		if request.Select != nil && !request.Select.Initial() {
 			// initial contents not requested
 			continue
 		}
@@ -307,7 +311,11 @@ func (o *OvsdbServer) MonitorCond(client *rpc2.Client, args []json.RawMessage, r
 
 	tableUpdates := make(ovsdb.TableUpdates2)
 	for t, request := range request {
-		if request != nil && request.Select != nil && !request.Select.Initial() {
+		if request == nil {
+			// a null request is a request with all the defaults
+			request = &ovsdb.MonitorRequest{}
+		}
+		if request.Select != nil && !request.Select.Initial() {
 			// initial contents not requested
 			continue
 		}
@@ -357,7 +365,11 @@ func (o *OvsdbServer) MonitorCondSince(client *rpc2.Client, args []json.RawMessa
 
 	tableUpdates := make(ovsdb.TableUpdates2)
 	for t, request := range request {
-		if request != nil && request.Select != nil && !request.Select.Initial() {
+		if request == nil {
+			// a null request is a request with all the defaults
+			request = &ovsdb.MonitorRequest{}
+		}
+		if request.Select != nil && !request.Select.Initial() {
 			// initial contents not requested
 			continue
 		}
